@@ -34,7 +34,8 @@ func init() {
 		Title: "Token supply changes only by the documented, exactly quantified events",
 		Funcs: fcNP("x/mint/types.Minter.CalculateBlockProvision", "x/mint/keeper.Keeper.MintCoins", "x/mint/keeper.Keeper.SendInflationaryRewards",
 			"x/mint.MintBlockProvision", "x/mint.SetPreviousBlockTime", "x/mint.BeginBlocker", "x/mint/keeper.msgServer.Init", "x/oracle/keeper.Keeper.transfer",
-			"x/oracle/keeper.msgServer.Tip", "x/bridge/keeper.Keeper.ClaimDeposit", "x/bridge/keeper.Keeper.WithdrawTokens"),
+			"x/oracle/keeper.msgServer.Tip", "x/bridge/keeper.Keeper.ClaimDeposit", "x/bridge/keeper.Keeper.WithdrawTokens",
+			"x/dispute/keeper.Keeper.ExecuteVote", "x/dispute/keeper.msgServer.WithdrawFeeRefund"),
 		Sweeps: []string{"supply_writers"},
 		Assumptions: []string{
 			"block-time gap below 62769647725999999 ns (about 726 days), the largest for which DailyMintRate*elapsed_ms fits in int64 (precondition gap_below_overflow)",
@@ -43,7 +44,7 @@ func init() {
 		},
 		NotDecided: []string{
 			"supply changes made by SDK modules themselves (slashing burn, IBC transfer mint/burn, gov deposit burn)",
-			"dispute burn amounts (ExecuteVote, WithdrawFeeRefund) are not yet under contract",
+			"the reporter-keeper entry points called during settlement have trusted frames (they do not change supply)",
 		},
 	})
 	reg(&PropDef{
@@ -180,6 +181,19 @@ func init() {
 		},
 		NotDecided: []string{
 			"bit-for-bit equality of stores and events across nodes (needs determinism of the SDK stack)",
+		},
+	})
+	reg(&PropDef{
+		ID:    "C13",
+		Title: "Dispute settlement pays out exactly what was paid in, once",
+		Funcs: fcNP("x/dispute/keeper.Keeper.ExecuteVote", "x/dispute/keeper.Keeper.ReturnSlashedTokens", "x/dispute/keeper.Keeper.RefundDisputeFee", "x/dispute/keeper.msgServer.WithdrawFeeRefund"),
+		Assumptions: []string{
+			"trusted frames for the reporter keeper's ReturnSlashedTokens, FeeRefund, AddAmountToStake (they write reporter/staking state and the two staking pool accounts only); their effect on the stake ledger is C05 and not claimed",
+			"stored dispute records are well formed (FeeTotal > 0, SlashAmount >= BurnAmount >= 0, vote result is a defined enum value), Dust is below one loya, the payer is not the dispute module account",
+		},
+		NotDecided: []string{
+			"that all pay-outs together equal fees paid plus escrowed stake over a whole dispute (needs the sum over all payers and voters); voter reward claims (ClaimReward / CalculateReward); repeated payments by the same payer and payers of later rounds (suspected defects, no check yet)",
+			"RewardReporterBondToFeePayers' pro-rata amount",
 		},
 	})
 }
